@@ -190,6 +190,9 @@ def check(pid, tier, seed=None, keep=False):
     mod = load_prop(pid)
     assert_repo_tree()
     conf = tier_conf(mod, tier)
+    if os.environ.get("VERIF_BUDGET_S"):
+        # a shorter (or longer) time budget per shard for the time-budgeted loops of this tier: same code paths, less depth
+        conf = dict(conf, budget_s=int(os.environ["VERIF_BUDGET_S"]))
     nshards = conf["shards"]
     os.makedirs(os.path.join(HOME, ".work"), exist_ok=True)
     work = tempfile.mkdtemp(prefix=f"{pid}-{tier}-", dir=os.path.join(HOME, ".work"))
